@@ -83,6 +83,8 @@ struct Case {
     rule_counts: Vec<usize>,
     bound: usize,
     kind: Kind,
+    /// info.protocol forced to this value (None: the generator's choice point)
+    protocol: Option<u8>,
 }
 
 /// Framing recipe (cut offsets depend on the payload, so they are symbolic here).
@@ -174,6 +176,7 @@ fn base(engine: EngineCfg, bound: usize) -> Case {
         rule_counts: vec![2, 0, 1, 300],
         bound,
         kind: Kind::Protocol,
+        protocol: None,
     }
 }
 
@@ -260,6 +263,16 @@ fn build_cases(tier: Tier) -> Vec<Case> {
             c.framing = [fr.clone(), fr.clone(), fr.clone()];
             c.label = format!("C {e:?} all={}", fr.tag());
             v.push(c);
+            // Counter-Strike: Source servers speaking protocol 7 send split packets without the size field
+            if e == EngineCfg::Css240 {
+                for which in 1 .. 3 {
+                    let mut c = base(e, 0);
+                    c.protocol = Some(7);
+                    c.framing[which] = fr.clone();
+                    c.label = format!("C {e:?} protocol=7 (no size field) {}={}", ["info", "players", "rules"][which], fr.tag());
+                    v.push(c);
+                }
+            }
         }
         // k = 2 at every boundary of each payload (the payloads of the default state are < 200 bytes)
         let step = if tier.is_thorough() { 1 } else { 3 };
@@ -393,6 +406,9 @@ impl Prop for C02 {
                     &case.rule_counts,
                 );
                 let mut state = state;
+                if let Some(p) = case.protocol {
+                    state.info.protocol = p;
+                }
                 if case.engine == EngineCfg::Ror2 {
                     // the app id of this game is only expressible through the game id
                     if let Some(e) = state.info.edf.as_mut() {
